@@ -127,7 +127,7 @@ def gen_mutation(rng, defs, paths, h, simple=False):
         inner = dict(p)
         inner["dims"] = []
         val = gen.gen_value(rng, defs, inner)
-        if val is not None and not p["ptr"] and rng.random() < 0.8:
+        if val is not None and not p["ptr"] and len(p["dims"]) == 1 and rng.random() < 0.8:
             if rng.random() < 0.7:
                 return {"op": "arr_set", "h": h, "t": n, "path": p["path"], "idx": rng.randrange(0, 3), "val": val}
             return {"op": "arr_append", "h": h, "t": n, "path": p["path"], "val": val}
@@ -511,6 +511,11 @@ def _set_diff(hobj, parent, op, val, stats):
         off += fld.offset
         cur = fld.type
     before = hobj.dumps()
+    if len(before) != t.size:
+        # the instance already holds a value that does not fit its fixed-size type (earlier out-of-domain assignment)
+        setattr(parent, name, val)
+        stats.count("probe.set_diff_skipped_inconsistent_instance")
+        return ["ok"]
     setattr(parent, name, val)
     after = hobj.dumps()
     ft = fld.type
